@@ -60,6 +60,8 @@ def corpus(thorough):
            {"reactants": ["HOCH2CH2CH2OH", "H3+"], "products": ["HOCH2CH2CH2OH2+", "H2"], "alpha": 2e-9, "beta": -0.5, "reaction_type": 100, "idxfromfile": 13},
            {"reactants": ["HOCH2CH2CH2OH2+", "e-"], "products": ["HOCH2CH2CH2OH", "H"], "alpha": 3e-7, "beta": -0.5, "reaction_type": 100, "idxfromfile": 14}]
     out.append(("API", {"reactions": api, "network": {}}, None, "api"))
+    # extra (required) species and no allowed-species restriction: the exported project must re-render to the same network
+    out.append(("API-required", {"reactions": api[:3], "network": {"required_species": ["He", "Ne+"]}}, None, "api"))
     # gas-grain network whose binding energies and photon yields were customised by the user: the export must carry them
     # API-built gas-grain network whose binding energies were customised by the user: the export must carry them
     ice = [{"reactants": [x], "products": ["#" + x], "alpha": 1.0, "reaction_type": 200, "idxfromfile": 20 + k} for k, x in enumerate(("C", "O", "CO"))]
